@@ -7,8 +7,6 @@
 //! A request is `ins>outs>AC` with A = allow_missing_inputs, C = captures_available (0/1).
 use rten::verif::planner::NodeSpec;
 use std::io::Write;
-use std::sync::mpsc;
-use std::time::Duration;
 use vh_planner::*;
 
 #[derive(Clone, Debug)]
@@ -61,8 +59,6 @@ fn exec_line(line: &str) -> String {
     format_line(line, None)
 }
 
-/// the whole line timed out: find the request(s) that hang by running each in turn under a
-/// short watchdog (threads of hanging requests are leaked; the process is replaced afterwards)
 fn parse_reqs(rtxt: &str) -> (Vec<Req>, Option<u32>) {
     if let Some(nv) = rtxt.strip_prefix('*') {
         let nv: u32 = nv.parse().unwrap();
@@ -71,33 +67,16 @@ fn parse_reqs(rtxt: &str) -> (Vec<Req>, Option<u32>) {
     (rtxt.split('/').filter(|s| !s.is_empty()).map(parse_req).collect(), None)
 }
 
-fn timeout_line(line: &str, probe: bool) -> String {
-    let (gtxt, rtxt) = line.split_once('#').unwrap();
-    let gs = GraphSpec::parse(gtxt);
+/// the worker hung or died on this line
+fn fail_line(line: &str, kind: Fail) -> String {
+    let (_, rtxt) = line.split_once('#').unwrap();
     let (reqs, _) = parse_reqs(rtxt);
-    let mut outs = vec![];
-    let mut hung = if probe { 0 } else { 2 };
-    for r in &reqs {
-        if hung >= 2 {
-            // do not leak more runaway threads; remaining requests are reported as not run
-            outs.push(("NotRun".to_string(), "notrun".to_string()));
-            continue;
-        }
-        let (tx, rx) = mpsc::channel();
-        let gs2 = gs.clone();
-        let r2 = vec![r.clone()];
-        std::thread::spawn(move || {
-            let _ = tx.send(run_line(&gs2, &r2));
-        });
-        match rx.recv_timeout(Duration::from_millis(300)) {
-            Ok(mut o) => outs.push(o.remove(0)),
-            Err(_) => {
-                hung += 1;
-                outs.push(("Timeout".to_string(), "anomaly-timeout".to_string()));
-            }
-        }
-    }
-    format_line(line, Some(outs))
+    let (o, t) = match kind {
+        Fail::Hang => ("Timeout", "anomaly-timeout"),
+        Fail::Crash => ("Panic", "anomaly-crash"),
+        Fail::Skip => ("NotRun", "notrun"),
+    };
+    format_line(line, Some(reqs.iter().map(|_| (o.to_string(), t.to_string())).collect()))
 }
 
 fn format_line(line: &str, outs: Option<Vec<(String, String)>>) -> String {
@@ -400,5 +379,5 @@ fn generate_dyn(seed: u64, n: usize, tier: &str, out: &mut dyn Write) {
 }
 
 fn main() {
-    harness_main(generate_dyn, exec_line, timeout_line, 3000);
+    harness_main(generate_dyn, exec_line, fail_line, 4000);
 }
